@@ -44,6 +44,8 @@ Skeletons ==
     EncMsg(H, <<DataVar>>),
     EncMsg(H, <<EncTplSet(TNorm, 0), DataNorm, EncSet(999, <<1, 2, 3>>, 0), EncSet(257, <<9, 9, 9, 9>>, 0)>>),
     EncMsg(H, <<EncSet(256, <<>>, 0)>>),
+    EncMsg(H, <<DataNorm, EncTplSet(TZLen, 0), DataNorm>>),      \* a template redefined between two data sets of one message
+    EncMsg(H, <<DataNorm, EncTplSet(TZero, 0), DataNorm, EncTplSet(TNorm, 0), DataNorm>>),
     EncMsg(H, <<EncSet(256, <<1>>, 0), EncSet(256, <<1, 2, 3, 4, 5, 6, 7, 8, 9, 10, 11, 12, 13>>, 0)>>) }
 
 (* one field replaced: all 16-bit fields at even offsets and every octet (covers the version, *)
